@@ -326,6 +326,47 @@ pub fn run(outdir: &str, seed: u64, thorough: bool) -> serde_json::Value {
             if k < 1 { st.sample(json!({"stream":"datatype-laws","a":a.to_string(),"b":b.to_string(),"a_subset_b":sub,"union":un.map(|u| u.to_string()),"intersection":inter.map(|u| u.to_string())})); }
         }
     }
+    // ---- degenerate types: Null, Any, the types inferred from empty and small values, lists over an empty element type ----
+    {
+        use crate::typegen::*;
+        use qrlew::data_type::{value::Value, DataType, DataTyped as _, Variant as _};
+        let empty_list = Value::list(Vec::<Value>::new());
+        let degenerate: Vec<(DataType, Vec<Value>)> = vec![
+            (empty_list.data_type(), vec![empty_list.clone()]),
+            (DataType::list(DataType::Null, 0, 0), vec![empty_list.clone()]),
+            (DataType::list(DataType::Null, 0, 3), vec![empty_list.clone()]),
+            (DataType::list(DataType::integer_interval(0, 10), 0, 0), vec![empty_list.clone()]),
+            (DataType::list(DataType::integer_interval(0, 10), 0, 2), vec![empty_list.clone(), Value::list(vec![Value::integer(3)])]),
+            (Value::list(vec![Value::integer(3), Value::integer(4)]).data_type(), vec![Value::list(vec![Value::integer(3), Value::integer(4)])]),
+            (DataType::optional(DataType::Null), vec![Value::none()]),
+            (Value::none().data_type(), vec![Value::none()]),
+            (DataType::Null, vec![]),
+            (DataType::integer_interval(5, 5), vec![Value::integer(5)]),
+        ];
+        let targets: Vec<DataType> = vec![DataType::list(DataType::integer_interval(0, 10), 2, 5), DataType::list(DataType::integer_interval(0, 10), 1, 1), DataType::list(DataType::integer_interval(0, 10), 0, 5),
+            DataType::list(DataType::text(), 1, 3), DataType::list(DataType::Null, 1, 2), DataType::optional(DataType::integer_interval(0, 10)), DataType::integer_interval(0, 10), DataType::Null, DataType::Any,
+            DataType::list(DataType::optional(DataType::float_interval(0.0, 1.0)), 0, 1), DataType::optional(DataType::list(DataType::integer_interval(0, 10), 2, 2))];
+        let n_gen = if thorough { 400 } else { 40 };
+        let mut all_targets = targets.clone();
+        for _ in 0..n_gen { let mut r = rng.fork(); all_targets.push(to_dt(&gen_ty(&mut r, 2))); }
+        for (a, ws) in degenerate.iter() {
+            for b in all_targets.iter() {
+                let res = catch_unwind(AssertUnwindSafe(|| (a.is_subset_of(b), b.is_subset_of(a), a.super_union(b).ok(), a.super_intersection(b).ok())));
+                st.evaluations += 1; st.distinct.insert(hash_str(&format!("deg{}|{}", a, b))); st.bump("dt_degenerate_pairs");
+                let Ok((sab, _sba, un, inter)) = res else { st.bump("dt_panicked"); continue };
+                // two composite types of different variants: the listed finding on approximate intersections
+                let composite = |t: &DataType| matches!(t, DataType::Optional(_) | DataType::List(_) | DataType::Struct(_));
+                let class = if std::mem::discriminant(a) != std::mem::discriminant(b) && (composite(a) || composite(b)) { "composite-types-of-different-shape" } else { "degenerate-type" };
+                for v in ws.iter() {
+                    if !a.contains(v) { st.violation(json!({"kind":"value-not-in-own-type","class":class,"value":v.to_string(),"own_type":a.to_string()})); continue; }
+                    if sab && !member(b, v) { st.violation(json!({"kind":"dt-subset-unsound","class":class,"a":a.to_string(),"b":b.to_string(),"value":v.to_string()})); }
+                    if let Some(u) = &un { if !member(u, v) { st.violation(json!({"kind":"dt-union-lost-value","class":class,"a":a.to_string(),"b":b.to_string(),"union":u.to_string(),"value":v.to_string(),"from":"a"})); } }
+                    // (for these witnesses "in b" is the library's own contains: an empty list is not the one-element list holding it)
+                    if let Some(i) = &inter { if b.contains(v) && !member(i, v) { st.violation(json!({"kind":"dt-intersection-lost-value","class":class,"a":a.to_string(),"b":b.to_string(),"intersection":i.to_string(),"value":v.to_string()})); } }
+                }
+            }
+        }
+    }
     {
         use qrlew::data_type::{value::Value, DataType, Variant as _};
         use crate::typegen::member;
